@@ -97,6 +97,25 @@ def check_big(n, acc):
             check_lib(("big", n), spec, acc, route, lib=lib, case_extra={"big": n})
 
 
+WIDE = [1, 2, 31, 32, 33, 63, 64, 65, 66, 70, 127, 128, 129, 255, 256, 257, 300, 1000]
+
+
+def check_wide(acc, tier):
+    """Columns and field keys far beyond the usual: value_column and key lengths around every power of two up to 1000
+    (padding of hundreds of blanks, keys longer than the column, 'auto' over keys of very different lengths)."""
+    sizes = WIDE if tier != "quick" else [1, 33, 64, 65, 70, 129, 257, 1000]
+    for ks in sizes:
+        for kl in sizes:
+            if kl < ks:
+                continue
+            for vc in sizes + ["auto"]:
+                for ind, tc in (("", False), ("\t", True)):
+                    lib = Library([Entry("article", "w1", [Field("k" * ks, "{short}"), Field("m" * kl, "{long}"), Field("z", "1")]), Entry("book", "w2", [Field("y", "{other entry}")])])
+                    spec = (ind, vc, tc, "\n", DEFAULT_PFC)
+                    acc.count("wide_libraries")
+                    check_lib(("wide", ks, kl), spec, acc, "verbatim", lib=lib, case_extra={"wide": [ks, kl]})
+
+
 def check_same_object(acc):
     """The very same block object held at several positions (a divider comment added again and again, a preamble
     shared by merged files): every position is a block of its own for the writer."""
@@ -172,7 +191,7 @@ def check_history(acc):
 
 def shards(tier):
     maxb = 2 if tier == "quick" else 3
-    out = [("libs", ()), ("history", 0), ("same", 0)] + [("big", n) for n in (bigdocs.SIZES_QUICK if tier == "quick" else bigdocs.SIZES_THOROUGH)]
+    out = [("libs", ()), ("history", 0), ("same", 0), ("wide", 0)] + [("big", n) for n in (bigdocs.SIZES_QUICK if tier == "quick" else bigdocs.SIZES_THOROUGH)]
     for a in NAMES:
         if maxb == 2:
             out.append(("libs", (a,)))
@@ -347,6 +366,8 @@ def run_shard(shard, tier, acc):
         return check_history(acc)
     if shard[0] == "same":
         return check_same_object(acc)
+    if shard[0] == "wide":
+        return check_wide(acc, tier)
     _, prefix = shard
     maxb = 2 if tier == "quick" else 3
     fs = formats(tier)
@@ -378,6 +399,10 @@ def replay(case, acc):
         return check_history(acc)
     if "same_object" in case:
         return check_same_object(acc)
+    if "wide" in case:
+        ks, kl = case["wide"]
+        lib = Library([Entry("article", "w1", [Field("k" * ks, "{short}"), Field("m" * kl, "{long}"), Field("z", "1")]), Entry("book", "w2", [Field("y", "{other entry}")])])
+        return check_lib(("wide", ks, kl), tuple(case["format"]), acc, "verbatim", lib=lib, case_extra={"wide": [ks, kl]})
     check_lib(tuple(case["library"]), tuple(case["format"]), acc, case.get("route", "verbatim"))
 
 
